@@ -171,7 +171,9 @@ int main(int argc, char** argv)
     }
     catch(const sbe_error& e)
     {
-        reporter.error(e.what());
+        // message is not a format string, it can contain `{`/`}` taken from
+        // the schema or a file name
+        reporter.error("{}", e.what());
         return 1;
     }
 
